@@ -24,6 +24,8 @@
 #define MAXMAPS 8
 #define E2BIG 7
 #define ENOENT 2
+#define EEXIST 17
+#define EINVAL 22
 
 struct entry { unsigned char *key, *val; uint64_t stamp; };
 struct map {
@@ -118,8 +120,12 @@ static long m_delete(struct map *m, const void *key)
 void *bpf_map_lookup_elem(void *map, const void *key) { return m_lookup(by_addr(map), key, 1); }
 long bpf_map_update_elem(void *map, const void *key, const void *value, uint64_t flags)
 {
-    if (flags != 0) { fprintf(stderr, "update flags %llu not modelled\n", (unsigned long long)flags); exit(3); }
-    return m_update(by_addr(map), key, value);
+    /* bpf(2): BPF_ANY 0, BPF_NOEXIST 1 (create only), BPF_EXIST 2 (update only); anything else is EINVAL */
+    struct map *m = by_addr(map);
+    if (flags > 2) return -EINVAL;
+    if (flags == 1 && find(m, key) >= 0) return -EEXIST;
+    if (flags == 2 && find(m, key) < 0) return -ENOENT;
+    return m_update(m, key, value);
 }
 long bpf_map_delete_elem(void *map, const void *key) { return m_delete(by_addr(map), key); }
 uint64_t bpf_get_current_pid_tgid(void) { return (uint64_t)cur_tgid << 32 | cur_tid; }
